@@ -204,7 +204,9 @@ theorem prefix_equivariant {P P' : Name} {c c' : Cfg} {t : Table τ} (s : Name) 
     (hc : c.pfx = P) (hc' : c'.pfx = P') (hflags : c'.autoname = c.autoname ∧ c'.dedup = c.dedup)
     (hnames : ∀ n ∈ t.names, ∃ s, n = P ++ s)
     (hfresh : ∀ s, P ++ s ∈ c.reserved ↔ P' ++ s ∈ c'.reserved)
-    (hwords : ∀ s, P ++ s ∈ reservedWords ↔ P' ++ s ∈ reservedWords) :
+    (hwords : ∀ s, P ++ s ∈ reservedWords ↔ P' ++ s ∈ reservedWords)
+    (hP : P ≠ []) (hP' : P' ≠ [])
+    (hauto : ∀ e ∈ t.autonamed, (∃ s, e.1 = P ++ s) ∧ (∃ s, e.2 = P ++ s)) :
     let g := rename P P'
     newName R c' (t.mapNames g) typs = g (newName R c t typs) ∧
     getFuncName R c' (t.mapNames g) typs
@@ -213,7 +215,7 @@ theorem prefix_equivariant {P P' : Name} {c c' : Cfg} {t : Table τ} (s : Name) 
       match setFuncName R c t (P ++ s) typs with
       | .ok (n, t') => .ok (g n, t'.mapNames g)
       | .error e => .error (e.map g) := by
-  have h := renaming_of_prefix (fn := P ++ s) (hintOf R typs) hc hc' hflags hnames ⟨s, rfl⟩ hfresh hwords
+  have h := renaming_of_prefix (fn := P ++ s) (hintOf R typs) hc hc' hflags hnames ⟨s, rfl⟩ hfresh hwords hP hP' hauto
   refine ⟨newName_renamed R typs h, getFuncName_renamed R typs h, ?_⟩
   have := setFuncName_renamed R typs h
   rwa [rename_prefix] at this
@@ -225,7 +227,9 @@ theorem prefix_equivariant_global (p x s : Name) {c c' : Cfg} {t : Table τ} (ty
     (hflags : c'.autoname = c.autoname ∧ c'.dedup = c.dedup)
     (hnames : ∀ n ∈ t.names, ∃ s, n = (derive ++ x) ++ s)
     (hfresh : ∀ s, (derive ++ x) ++ s ∈ c.reserved ↔ (p ++ x) ++ s ∈ c'.reserved)
-    (hwords : ∀ s, (derive ++ x) ++ s ∈ reservedWords ↔ (p ++ x) ++ s ∈ reservedWords) :
+    (hwords : ∀ s, (derive ++ x) ++ s ∈ reservedWords ↔ (p ++ x) ++ s ∈ reservedWords)
+    (hp : p ++ x ≠ [])
+    (hauto : ∀ e ∈ t.autonamed, (∃ s, e.1 = (derive ++ x) ++ s) ∧ (∃ s, e.2 = (derive ++ x) ++ s)) :
     let g := rename (derive ++ x) (p ++ x)
     (∀ s, g ((derive ++ x) ++ s) = rho p ((derive ++ x) ++ s)) ∧
     newName R c' (t.mapNames g) typs = g (newName R c t typs) ∧
@@ -234,7 +238,7 @@ theorem prefix_equivariant_global (p x s : Name) {c c' : Cfg} {t : Table τ} (ty
       | .ok (n, t') => .ok (g n, t'.mapNames g)
       | .error e => .error (e.map g) := by
   have hc'' : c'.pfx = p ++ x := by rw [hc', rho_derive]
-  obtain ⟨h1, _, h3⟩ := prefix_equivariant R s typs hc hc'' hflags hnames hfresh hwords
+  obtain ⟨h1, _, h3⟩ := prefix_equivariant R s typs hc hc'' hflags hnames hfresh hwords (by simp [derive, asc]) hp hauto
   refine ⟨?_, h1, ?_⟩
   · intro s'
     rw [rename_prefix, List.append_assoc derive x s', rho_derive, List.append_assoc]
@@ -355,53 +359,17 @@ variable {τ : Type} [DecidableEq τ] (R : TyRel τ)
 
 /-- every name a table can hold starts with the plugin's prefix: user names reach `SetFuncName` only
 through first-match dispatch, minted names are `prefix ++ …` -/
-theorem minted_has_prefix (c : Cfg) (t : Table τ) (typs : List τ) : ∃ s, newName R c t typs = c.pfx ++ s := by
-  obtain ⟨k, hk, _⟩ := newName_spec R c t typs
-  rw [hk]
-  cases k with
-  | zero => exact ⟨[], by simp [seqAt]⟩
-  | succ k =>
-    by_cases hk : k > (hintOf R typs).length
-    · exact ⟨underscore :: (flat (hintOf R typs) ++ itoa k), by simp only [seqAt, cand, hk, if_true]⟩
-    · exact ⟨underscore :: flat ((hintOf R typs).take k), by simp only [seqAt, cand, hk, if_false]⟩
+theorem minted_has_prefix (c : Cfg) (t : Table τ) (typs : List τ) : ∃ s, newName R c t typs = c.pfx ++ s :=
+  minted_has_prefix' R c t typs
 
 theorem getFuncName_keeps_prefix (c : Cfg) (t : Table τ) (typs : List τ)
-    (h : ∀ n ∈ t.names, ∃ s, n = c.pfx ++ s) : ∀ n ∈ (getFuncName R c t typs).2.names, ∃ s, n = c.pfx ++ s := by
-  unfold getFuncName
-  cases nameOf R t typs with
-  | some f => exact h
-  | none =>
-    intro n hn
-    simp only [names_insert, List.mem_append, List.mem_singleton] at hn
-    rcases hn with hn | rfl
-    · exact h n hn
-    · exact minted_has_prefix R c t typs
+    (h : ∀ n ∈ t.names, ∃ s, n = c.pfx ++ s) : ∀ n ∈ (getFuncName R c t typs).2.names, ∃ s, n = c.pfx ++ s :=
+  getFuncName_keeps_prefix' R c t typs h
 
 theorem setFuncName_keeps_prefix (c : Cfg) (t : Table τ) (fn : Name) (typs : List τ) {n : Name} {t' : Table τ}
     (h : ∀ n ∈ t.names, ∃ s, n = c.pfx ++ s) (hfn : ∃ s, fn = c.pfx ++ s)
-    (hs : setFuncName R c t fn typs = .ok (n, t')) : ∀ m ∈ t'.names, ∃ s, m = c.pfx ++ s := by
-  unfold setFuncName at hs
-  split at hs
-  · split at hs
-    · cases hs; exact h
-    · split at hs
-      · cases hs; exact h
-      · cases hs
-  · split at hs
-    · split at hs
-      · cases hs; exact h
-      · split at hs
-        · have e := Except.ok.inj hs
-          have : t' = (getFuncName R c t typs).2 := by rw [e]
-          rw [this]
-          exact getFuncName_keeps_prefix R c t typs h
-        · cases hs
-    · cases hs
-      intro m hm
-      simp only [names_insert, List.mem_append, List.mem_singleton] at hm
-      rcases hm with hm | rfl
-      · exact h m hm
-      · exact hfn
+    (hs : setFuncName R c t fn typs = .ok (n, t')) : ∀ m ∈ t'.names, ∃ s, m = c.pfx ++ s :=
+  setFuncName_keeps_prefix' R c t fn typs h hfn hs
 
 /-- `names_disjoint_across_plugins`: when no plugin's prefix is a prefix of another's, a name that
 starts with the prefix of plugin `i` cannot start with that of plugin `j ≠ i`; hence (with the three
